@@ -744,11 +744,11 @@ macro "alt_step" : tactic => `(tactic| first
   | split)
 
 theorem post_alt_find (a : Alt) (t : Int) (h : RuleV (.alt a)) :
-    Post (a.find_local_time_type t) (fun _ => True) := by
+    Post (a.find_ltt_for_validate t) (fun _ => True) := by
   obtain ⟨hs, hd, hd1, hd2, ht1, ht2, -, -⟩ := h
   unfold LttV at hs hd
   unfold TimeV at ht1 ht2
-  unfold Alt.find_local_time_type
+  unfold Alt.find_ltt_for_validate
   refine post_bind (post_from_timespec_year t) ?_
   intro cy _ hcy
   dsimp only
@@ -766,7 +766,7 @@ theorem post_alt_find (a : Alt) (t : Int) (h : RuleV (.alt a)) :
     repeat' alt_step
 
 theorem post_rule_find (r : Rule) (t : Int) (h : RuleV r) :
-    Post (r.find_local_time_type t) (fun _ => True) := by
+    Post (r.find_ltt_for_validate t) (fun _ => True) := by
   cases r with
   | fixed x => exact post_ok trivial
   | alt a => exact post_alt_find a t h
